@@ -270,7 +270,7 @@ func buildBlock(t *tape, sr bool) *block.Block {
 	b := &block.Block{Header: *buildHeader(t, sr)}
 	n := t.n(4)
 	for i := 0; i < n; i++ {
-		tx := buildTx(t, txOpts{scriptMax: 700})
+		tx := buildTx(t, txOpts{scriptMax: 700, noReserved: true})
 		tx.Nonce = uint32(i)*7919 + tx.Nonce%7919 // distinct transactions
 		b.Transactions = append(b.Transactions, tx)
 	}
